@@ -440,6 +440,12 @@ func (e *Engine) cevalCall(n *CCall, env *Env) Value {
 			return Sc{v.Cap, SInt}
 		}
 		cfail("cap of unsupported value")
+	case "offset":
+		// offset(s): where the slice starts inside its backing row (ghost; for aliasing arguments)
+		if v, ok := arg(0).(SliceV); ok {
+			return Sc{v.Off, SInt}
+		}
+		cfail("offset of unsupported value")
 	case "old":
 		if env.old == nil {
 			cfail("old() not available here")
@@ -693,6 +699,9 @@ func (fc *funcCtx) localEnv(st *State, l *Loop) *Env {
 	for k, v := range st.entryVals {
 		if _, ok := env.vars[k]; !ok {
 			env.vars[k] = v
+		}
+		if _, ok := env.vars[k+"$1"]; !ok {
+			env.vars[k+"$1"] = v
 		}
 	}
 	// locals renamed since the contract was written are reachable under their old names
